@@ -674,11 +674,12 @@ fn run_case(rep: &mut Report, case: u64, defs: &[ShapeDef]) {
     };
     let all: Vec<Entity> = world.create_iter().take(n).collect();
     let keep_all = n <= 300;
+    let contiguous = keep_all && rng.chance(1, 4); // every index 0..n occupied: gap-free storages are possible
     let mut keep: BTreeSet<u32> = BTreeSet::new();
     for e in &all {
         let i = e.id();
         let special = BOUNDARY.contains(&i) || FAR.contains(&i);
-        if keep_all && rng.chance(9, 10) || special && rng.chance(4, 5) || !keep_all && rng.chance(1, 40) {
+        if contiguous || keep_all && rng.chance(9, 10) || special && rng.chance(4, 5) || !keep_all && rng.chance(1, 40) {
             keep.insert(i);
         }
     }
@@ -735,7 +736,12 @@ fn run_case(rep: &mut Report, case: u64, defs: &[ShapeDef]) {
             members.extend(core.iter().cloned());
         }
         let mut m = BTreeMap::new();
-        for i in members {
+        // insertion order is shuffled: the dense storage's internal order is then a permutation of the index order
+        let mut order: Vec<u32> = members.into_iter().collect();
+        if rng.chance(1, 2) {
+            rng.shuffle(&mut order);
+        }
+        for i in order {
             payload += 1;
             match drivers[name].access(&world, model.live[&i], Path::Insert, payload) {
                 Out::InsOk(None, s) => {
@@ -1116,7 +1122,10 @@ pub mod par {
             d.register(&mut world, (k % 6) as u8);
         }
         let small = cfg.extra_u64("small", 0) == 1;
-        let n = if small {
+        let far = !small && (rng.chance(1, 25) || (cfg.extra_u64("far", 0) == 1 && rng.chance(1, 3)));
+        let n = if far {
+            266300 // indices beyond 262144: the top layer of the hierarchical bit sets has more than one bit
+        } else if small {
             rng.range(1, 200)
         } else {
             match rng.weighted(&[25, 40, 24, 8, 3]) {
@@ -1128,11 +1137,18 @@ pub mod par {
             }
         };
         let all: Vec<Entity> = world.create_iter().take(n).collect();
-        let style = if n > 20000 { 0 } else { rng.below(3) };
+        let style = if far {
+            3
+        } else if n > 20000 {
+            0
+        } else {
+            rng.below(3)
+        };
         let mut keep: BTreeSet<u32> = BTreeSet::new();
         for e in &all {
             let i = e.id();
             let k = match style {
+                3 => FAR.contains(&i) || (i >= 262144 && rng.chance(1, 40)) || (BOUNDARY.contains(&i) && rng.chance(1, 2)),
                 0 => true,
                 1 => rng.chance(1, 3) || BOUNDARY.contains(&i),
                 _ => rng.chance(1, 20) || BOUNDARY.contains(&i),
@@ -1164,11 +1180,18 @@ pub mod par {
         };
         for name in STORAGES.iter() {
             let mut members = random_subset(&mut rng, &universe);
-            if !matches!(*name, "CFlagNull") && rng.chance(4, 5) {
+            if far && rng.chance(1, 3) {
+                // every member beyond 262144: nothing of this storage lies under the first top-layer bit
+                members = universe.iter().cloned().filter(|i| *i >= 262144 && rng.chance(1, 2)).collect();
+            } else if !matches!(*name, "CFlagNull") && rng.chance(4, 5) {
                 members.extend(core.iter().cloned());
             }
             let mut m = BTreeMap::new();
-            for i in members {
+            let mut order: Vec<u32> = members.into_iter().collect();
+            if rng.chance(1, 2) {
+                rng.shuffle(&mut order);
+            }
+            for i in order {
                 payload += 1;
                 if let Out::InsOk(None, s) = drivers[name].access(&world, model.live[&i], Path::Insert, payload) {
                     m.insert(i, s);
